@@ -109,7 +109,7 @@ class Explorer:
                 self.by_target_all[c.target].append(c)
         self.invariants = invariants
         self.types = TypeParser(index, ['fpy2.number', 'fpy2.utils', 'fpy2', 'fpy2.ast', 'fpy2.analysis',
-                                        'spec.c02', 'fpy2.transform.path', 'fpy2.transform.cursor', 'fpy2.transform.error'])
+                                        'spec.c02', 'fpy2.number.context', 'fpy2.transform.path', 'fpy2.transform.cursor', 'fpy2.transform.error'])
         # stand-in classes for external objects (Python ast nodes) live in spec modules; searched last
         self.types.default_modules += [m for m in ('spec.c06',) if index.module(m) is not None]
         self.intrinsics = Intrinsics(self)
@@ -760,7 +760,8 @@ class Explorer:
                     formulas = [f for f in sub[0]] or [z3.BoolVal(True)]
             except z3.Z3Exception:
                 pass
-        ax, _ = theory.instantiate(formulas, quant=self.quant)
+        light = self.current is not None and self.current.opts.get('light_axioms', False)
+        ax, _ = theory.instantiate(formulas, heavy=not light, quant=self.quant)     # option light_axioms: no product-splitting instances
         s = z3.Solver()
         s.set('timeout', timeout_ms or self.timeout_ms)
         for f in formulas:
@@ -847,6 +848,7 @@ class Explorer:
         self.merge_light_only = bool(c.opts.get('split_heavy', False))
         self.opaque_specs = {k: (v[0], v[1]) for k, v in c.opts.get('opaque', {}).items()}
         self.quant = c.opts.get('quant')
+        theory.EXTRA = set(c.opts.get('schemas', []))
         info = self.index.find_function(c.target) if c.target else None
         case = case or {}
         self.queue.clear()
